@@ -1919,13 +1919,73 @@ package main
 // returned as it is), a comma inside parentheses makes a tuple of the expressions in order.
 // ---------------------------------------------------------------------------------------------
 
-//@ func parseRecordGen
-//@   trusted
+// a record literal {r.F1 = e1; F2 = e2; ...}: a field may be qualified with the record's name; the literal is
+// resolved BY NAME when any of its fields is qualified (the first qualifier written counts), and only
+// otherwise by its set of field names
+//@ func parseFiIni
+//@   props C05 C03
+//@   param parseE: like parseExprWithPrec(_, #1, $0)
 //@   modifies maps glob:wg glob:vardefs
+//@   requires live: live(ps)
+//@   requires offside-stack-non-empty: len(ps.offsideCol) >= 1
 //@   panics may
-//@   ensures live: live(ps) ==> live(result.E0) && samebuf(result.E0, ps)
-//@   ensures kept: live(ps) ==> result.E0.scope == ps.scope && sameoff(result.E0.offsideCol, ps.offsideCol)
+//@   ensures qualified: skipeol(adv(ps)).tkz.current.ttype == New_TokenType_DOT ==> result.E1.RecName == ps.tkz.current.stringVal && result.E1.NePair.Name == adv(skipeol(adv(ps))).tkz.current.stringVal
+//@   ensures unqualified: skipeol(adv(ps)).tkz.current.ttype != New_TokenType_DOT ==> result.E1.RecName == "" && result.E1.NePair.Name == ps.tkz.current.stringVal
+//@   ensures live: live(result.E0) && samebuf(result.E0, ps)
+//@   ensures kept: result.E0.scope == ps.scope && sameoff(result.E0.offsideCol, ps.offsideCol)
 //@   ensures grouped: old(glob(wg)) ==> glob(wg)
+
+//@ func parseFieldInitializers
+//@   props C05 C03
+//@   param parseE: like parseExprWithPrec(_, #1, $0)
+//@   modifies maps glob:wg glob:vardefs
+//@   ghost P2 ParseState         -- the state after the first initializer
+//@   ghost FI fiInfo             -- the first initializer
+//@   ghost TL fiListInfo         -- the initializers after it
+//@   requires live: live(ps)
+//@   requires offside-stack-non-empty: len(ps.offsideCol) >= 1
+//@   panics may
+//@   ensures one: P2.tkz.current.ttype == New_TokenType_RBRACE ==> result.E1.RecName == FI.RecName && len(result.E1.NePairs) == 1 && result.E1.NePairs[0] == FI.NePair
+//@   ensures the-first-qualifier-written-names-the-record: P2.tkz.current.ttype != New_TokenType_RBRACE ==> result.E1.RecName == ite(FI.RecName != "", FI.RecName, TL.RecName)
+//@   ensures initializers-in-order: P2.tkz.current.ttype != New_TokenType_RBRACE ==> len(result.E1.NePairs) == len(TL.NePairs) + 1 && result.E1.NePairs[0] == FI.NePair && (forall k int :: 0 <= k && k < len(TL.NePairs) ==> result.E1.NePairs[k + 1] == TL.NePairs[k])
+//@   ensures live: live(result.E0) && samebuf(result.E0, ps)
+//@   ensures kept: result.E0.scope == ps.scope && sameoff(result.E0.offsideCol, ps.offsideCol)
+//@   ensures grouped: old(glob(wg)) ==> glob(wg)
+//@   at after call frt.Destr2#0: P2 = ret0
+//@   at after call frt.Destr2#0: FI = ret1
+//@   at after call frt.Destr2#1: TL = ret1
+
+//@ func scLookupRecFac
+//@   trusted
+//@   panics may
+//@ func scLookupRecFacByName
+//@   trusted
+//@   panics may
+//@ func retRecordGen
+//@   trusted
+//@   modifies maps
+//@   panics may
+//@   ensures state-kept: result.E0 == ps
+
+//@ func parseRecordGen
+//@   props C05 C03
+//@   param parseE: like parseExprWithPrec(_, #1, $0)
+//@   modifies maps glob:wg glob:vardefs
+//@   ghost FL fiListInfo         -- the initializer list parsed
+//@   ghost R int                 -- which lookup resolved the literal: 1 = by name, 2 = by the set of field names
+//@   ghost NM string             -- the name looked up
+//@   requires live: live(ps)
+//@   requires offside-stack-non-empty: len(ps.offsideCol) >= 1
+//@   panics may
+//@   ensures a-qualified-literal-is-resolved-by-name: (FL.RecName != "" ==> R == 1 && NM == FL.RecName) && (FL.RecName == "" ==> R == 2)
+//@   ensures live: live(result.E0) && samebuf(result.E0, ps)
+//@   ensures kept: result.E0.scope == ps.scope && sameoff(result.E0.offsideCol, ps.offsideCol)
+//@   ensures grouped: old(glob(wg)) ==> glob(wg)
+//@   at after call frt.Destr2#0: FL = ret1
+//@   at before call scLookupRecFacByName#0: R = 1
+//@   at before call scLookupRecFacByName#0: NM = $1
+//@   at before call scLookupRecFac#0: R = 2
+
 //@ func parseSliceExpr
 //@   trusted
 //@   modifies maps glob:wg glob:vardefs
